@@ -66,7 +66,9 @@ DoWork(c, fs, i) ==
       fs1 == [fs EXCEPT ![<<"err", errj>>] = Absent]          \* stale error removed first
       old == fs1[<<"out", outj>>]
       reuse == ~c.nocache /\ (old.k = "result" \/ (Variant = "stale_output_trusted" /\ old.k = "junk"))
-      fs2 == [fs1 EXCEPT ![<<"out", outj>>] = Absent]
+      \* an old output that is not reused is removed -- unless --no-cache, which skips the whole
+      \* look-at-the-old-output step: the old file then stays until a result overwrites it
+      fs2 == IF c.nocache THEN fs1 ELSE [fs1 EXCEPT ![<<"out", outj>>] = Absent]
   IN IF reuse THEN fs1
      ELSE CASE c.beh[a] = "ok" -> [fs2 EXCEPT ![<<"out", outj>>] = Cn("result", <<a>>)]
             [] c.beh[a] = "raise" -> [fs2 EXCEPT ![<<"err", errj>>] = Cn("error", <<a, 0>>)]
